@@ -676,6 +676,18 @@ func nativeReplay(repo, verif, pdir, id string, g GroupCfg, replayPath, scratch 
 			}
 		}
 	}
+	// The package's own test files are compiled into the replay binary. The
+	// modules package's test init ends the process after 30 s: a replay that
+	// needs more real time (rt.NativeTimeout) runs with that watchdog relaxed
+	// (replay binary only; the test suite itself is untouched).
+	if g.Package == "modules" {
+		wd := filepath.Join(repo, "modules", "tasks_test.go")
+		if src, err := os.ReadFile(wd); err == nil && bytes.Contains(src, []byte("<-time.After(30 * time.Second)")) {
+			tmp := filepath.Join(scratch, "modules_tasks_test_relaxed.go")
+			os.WriteFile(tmp, bytes.Replace(src, []byte("<-time.After(30 * time.Second)"), []byte("<-time.After(115 * time.Second)"), 1), 0o644)
+			replace[wd] = tmp
+		}
+	}
 	ovb, _ := json.Marshal(map[string]interface{}{"Replace": replace})
 	ovFile := filepath.Join(scratch, "overlay_"+sanitize(g.Package)+".json")
 	os.WriteFile(ovFile, ovb, 0o644)
